@@ -169,7 +169,11 @@ def run(ctx):
         ctx.expect(okk, 'ALG-19', inst, where(fa, st), '%s[j] <- column %s%s' % (attr, alg.show(off), (' + %d*j' % stride) if stride else ''),
                    '%s[j] <- column %s + %d*j (stop %s)' % (attr, alg.show(under_layout(v.off)), v.stride, alg.show(under_layout(v.stop)) if v.stop is not None else None), 'layout')
     # EOF guard first
-    okk = first_raise is not None and first_raise[1] in ('len(cols)<3', '3>len(cols)', 'len(%s.split())<3' % line) and any('EOFError' in x for x in first_raise[2]) and not first_raise[3]
+    colvars = [k for k, v in env.items() if isinstance(v, View) and v.off.is_zero() and v.stride == 1 and v.stop is None and not v.scalar]
+    tests_ok = set()
+    for cv in colvars + ['%s.split()' % line]:
+        tests_ok |= {'len(%s)<3' % cv, '3>len(%s)' % cv, 'len(%s)<=2' % cv}
+    okk = first_raise is not None and first_raise[1] in tests_ok and any('EOFError' in x for x in first_raise[2]) and not first_raise[3]
     ctx.expect(bool(okk), 'ALG-19', 'fewer than three columns ends the input', where(fa, first_raise[0] if first_raise else None),
                'raises EOFError before any field is parsed', 'guard is %s' % (list(first_raise[1:3]) if first_raise else None,), 'eof-guard')
     # to_ascii inverse layout
